@@ -1,7 +1,9 @@
 package main
 
 import (
+	"fmt"
 	"go/ast"
+	"go/constant"
 	"go/token"
 	"go/types"
 	"sort"
@@ -141,4 +143,273 @@ func r107(c *Ctx, r *R) {
 		r.Check(!bad, "sweep:"+f.Name(), s.Pos(), "after re-pinning one pin the sweep always continues with the next", f.Name()+" can stop the sweep after one re-pin (a return inside the loop): one pin that cannot be re-allocated leaves all later pins on the failed/removed peer")
 	}
 	sort.Strings(nil)
+}
+
+func init() {
+	register(&Rule{ID: "R13.8", Props: []string{"C13"}, Floor: 3, Title: "blocks before pins: every pin made by the sharding finaliser and the shard flush is dominated by the successful delivery of the DAG it pins, and no block is sent after a pin", Run: r138})
+}
+
+// r138: C13 says content is never pinned unless its blocks were delivered.
+// In the sharded path the finaliser builds extra DAGs (shard DAGs, the
+// cluster DAG) and pins them: each adder.Pin must come after the successful
+// AddMany of those nodes (check before effect), and nothing is sent after a
+// pin inside the same function.
+func r138(c *Ctx, r *R) {
+	for _, fn := range [][2]string{{"adder/sharding", "DAGService.Finalize"}, {"adder/sharding", "shard.Flush"}} {
+		f := c.fn(r, fn[0], fn[1])
+		if f == nil {
+			continue
+		}
+		sends := findCalls(f, false, "adder.BlockAdder).AddMany", "adder.BlockAdder).Add", "sharding.DAGService).flushCurrentShard")
+		pins := findCalls(f, false, ModPath+"/adder.Pin")
+		if len(pins) == 0 {
+			r.Und("pins:"+fn[1], f.Pos(), "%s makes no adder.Pin call", fn[1])
+			continue
+		}
+		for i, p := range pins {
+			key := fmt.Sprintf("%s:pin#%d", fn[1], i+1)
+			late := ""
+			for _, s := range sends {
+				after := false
+				if s.Block() == p.Block() {
+					after = dominatesInstr(p, s)
+				} else {
+					after = blockReaches(p.Block(), s.Block())
+				}
+				if after {
+					late = c.P.Pos(s.Pos())
+				}
+			}
+			if late != "" {
+				r.Bad(key, p.Pos(), "blocks are sent (%s) after this pin was submitted: if that delivery fails the pin is already in the pinset and points at blocks that were never stored", late)
+				continue
+			}
+			ok := guardedBy(p.Block(), func(g Guard) bool {
+				return gCallErrNil(g, "adder.BlockAdder).AddMany", "adder.BlockAdder).Add")
+			})
+			r.Check(ok, key, p.Pos(), "the pin is submitted only after the DAG's blocks were delivered without error", "this pin is not guarded by the success of the block delivery (AddMany): the DAG is pinned although its blocks may not have been stored")
+		}
+	}
+}
+
+func init() {
+	register(
+		&Rule{ID: "R15.7", Props: []string{"C15"}, Floor: 5, Title: "config.SetIfNotDefault skips exactly the zero value of each type it handles (a negative number or any other non-zero value is applied, so that Validate sees it)", Run: r157},
+		&Rule{ID: "R15.8", Props: []string{"C15"}, Floor: 60, Title: "settings are loaded independently: in the from-JSON side no read of a JSON setting is conditional on the value of a different setting", Run: r158},
+	)
+}
+
+func r157(c *Ctx, r *R) {
+	f := c.fn(r, "config", "SetIfNotDefault")
+	if f == nil {
+		return
+	}
+	instrs(f, func(i ssa.Instruction) {
+		st, ok := i.(*ssa.Store)
+		if !ok {
+			return
+		}
+		// *dest.(*T) = v
+		ta, ok := st.Addr.(*ssa.TypeAssert)
+		if !ok || paramIndex(f, ta.X) != 1 {
+			return
+		}
+		tname := ta.AssertedType.(*types.Pointer).Elem().String()
+		good, other := false, ""
+		for _, g := range guardsOf(st.Block()) {
+			switch x := g.Cond.(type) {
+			case *ssa.BinOp:
+				// the comparison that decides "is default": src.(T) OP const
+				var k ssa.Value
+				if sta, ok := x.X.(*ssa.TypeAssert); ok && paramIndex(f, sta.X) == 0 {
+					k = x.Y
+				} else if sta, ok := x.Y.(*ssa.TypeAssert); ok && paramIndex(f, sta.X) == 0 {
+					k = x.X
+				} else {
+					continue
+				}
+				kc, isK := k.(*ssa.Const)
+				zero := isK && (kc.Value == nil || (kc.Value.Kind() == constant.String && constant.StringVal(kc.Value) == "") || (kc.Value.Kind() != constant.String && kc.Value.Kind() != constant.Bool && constant.Sign(kc.Value) == 0))
+				if zero && ((x.Op == token.NEQ && g.Branch) || (x.Op == token.EQL && !g.Branch)) {
+					good = true
+				} else {
+					other = x.Op.String()
+				}
+			case *ssa.TypeAssert:
+				// bool: `if b` with b = src.(bool)
+				if paramIndex(f, x.X) == 0 && g.Branch {
+					good = true
+				}
+			}
+		}
+		r.Check(good && other == "", "zero-only:"+tname, st.Pos(), "the "+tname+" value is applied whenever it differs from the zero value", fmt.Sprintf("the %s value is applied under a test other than `!= zero` (%s): non-zero values that fail it (e.g. negative numbers) are silently replaced by the default instead of being loaded and validated", tname, other))
+	})
+}
+
+func r158(c *Ctx, r *R) {
+	ccs := c.componentConfigs(r)
+	for _, cc := range ccs {
+		J := jsonStructOf(c, cc)
+		loadRoot, _ := c.P.FuncDecl(cc.rel, cc.name+".LoadJSON")
+		if J == nil || loadRoot == nil {
+			continue // reported by R15.1
+		}
+		label := cc.rel + "." + cc.name
+		isJ := func(t types.Type) bool {
+			if p, ok := t.(*types.Pointer); ok {
+				t = p.Elem()
+			}
+			nt, ok := t.(*types.Named)
+			if !ok {
+				return false
+			}
+			if nt == J {
+				return true
+			}
+			// nested JSON structs of the same package
+			_, isS := nt.Underlying().(*types.Struct)
+			return isS && nt.Obj().Pkg() == cc.pkg.Types && nt != cc.t && strings.HasPrefix(strings.ToLower(nt.Obj().Name()), "json")
+		}
+		isCfg := func(t types.Type) bool {
+			if p, ok := t.(*types.Pointer); ok {
+				t = p.Elem()
+			}
+			return t == types.Type(cc.t)
+		}
+		// fieldOf: v is (a load of) a field of a J or cfg value
+		fieldOf := func(v ssa.Value) (kind string, f *types.Var) {
+			if u, ok := v.(*ssa.UnOp); ok && u.Op == token.MUL {
+				v = u.X
+			}
+			switch x := v.(type) {
+			case *ssa.FieldAddr:
+				fv := fieldOfAddr(x)
+				if isJ(x.X.Type()) {
+					return "json", fv
+				}
+				if isCfg(x.X.Type()) {
+					return "cfg", fv
+				}
+			case *ssa.Field:
+				if st, ok := x.X.Type().Underlying().(*types.Struct); ok {
+					if isJ(x.X.Type()) {
+						return "json", st.Field(x.Field)
+					}
+				}
+			}
+			return "", nil
+		}
+		var mentioned func(v ssa.Value, depth int, out map[string]bool)
+		mentioned = func(v ssa.Value, depth int, out map[string]bool) {
+			if depth > 6 || v == nil {
+				return
+			}
+			if k, f := fieldOf(v); f != nil {
+				out[k+":"+f.Name()] = true
+				return
+			}
+			switch x := v.(type) {
+			case *ssa.BinOp:
+				mentioned(x.X, depth+1, out)
+				mentioned(x.Y, depth+1, out)
+			case *ssa.UnOp:
+				mentioned(x.X, depth+1, out)
+			case *ssa.Call:
+				for _, a := range x.Common().Args {
+					mentioned(a, depth+1, out)
+				}
+				if x.Common().IsInvoke() {
+					mentioned(x.Common().Value, depth+1, out)
+				}
+			case *ssa.Phi:
+				for _, e := range x.Edges {
+					mentioned(e, depth+1, out)
+				}
+			case *ssa.Convert:
+				mentioned(x.X, depth+1, out)
+			case *ssa.ChangeType:
+				mentioned(x.X, depth+1, out)
+			case *ssa.Extract:
+				mentioned(x.Tuple, depth+1, out)
+			case *ssa.Lookup:
+				mentioned(x.X, depth+1, out)
+			case *ssa.Index:
+				mentioned(x.X, depth+1, out)
+			case *ssa.IndexAddr:
+				mentioned(x.X, depth+1, out)
+			case *ssa.Slice:
+				mentioned(x.X, depth+1, out)
+			}
+		}
+		for _, d := range funcsCalledFrom(c.P, cc.pkg, loadRoot) {
+			obj, _ := cc.pkg.TypesInfo.Defs[d.Name].(*types.Func)
+			if obj == nil {
+				continue
+			}
+			f := c.P.SSA.FuncValue(obj)
+			if f == nil || f.Blocks == nil {
+				continue
+			}
+			done := map[string]bool{}
+			instrs(f, func(i ssa.Instruction) {
+				v, ok := i.(ssa.Value)
+				if !ok {
+					return
+				}
+				kind, fv := fieldOf(v)
+				if kind != "json" {
+					return
+				}
+				if _, isLoadOrAddr := i.(*ssa.UnOp); isLoadOrAddr {
+					return // the FieldAddr itself is visited
+				}
+				key := label + ":" + f.Name() + ":" + fv.Name()
+				var dep []string
+				for _, g := range guardsOf(i.Block()) {
+					// error tests are not conditions on settings: a loader
+					// that refuses the input does not load the rest
+					if bo, ok := g.Cond.(*ssa.BinOp); ok && (isNilConst(bo.X) || isNilConst(bo.Y)) {
+						other := bo.X
+						if isNilConst(bo.X) {
+							other = bo.Y
+						}
+						if other.Type().String() == "error" {
+							continue
+						}
+					}
+					// loop conditions (range over a list setting) are not
+					// conditions either: what follows the loop runs always
+					hb := g.If.Block()
+					isLoop := false
+					for _, p := range hb.Preds {
+						if hb.Dominates(p) {
+							isLoop = true
+						}
+					}
+					if isLoop {
+						continue
+					}
+					m := map[string]bool{}
+					mentioned(g.Cond, 0, m)
+					for k := range m {
+						if k != "json:"+fv.Name() {
+							dep = append(dep, k+" (test at "+c.P.Pos(g.If.Cond.Pos())+")")
+						}
+					}
+				}
+				sort.Strings(dep)
+				if len(dep) > 0 {
+					if !done[key+"!"] {
+						done[key+"!"] = true
+						r.Bad(key, i.Pos(), "the JSON setting %s is read only under a condition on other settings %v: when that condition fails the saved value is silently replaced by the default (and a malformed value is accepted)", fv.Name(), dep)
+					}
+					return
+				}
+				if !done[key] {
+					done[key] = true
+					r.OK(key, i.Pos(), "read independently of other settings")
+				}
+			})
+		}
+	}
 }
